@@ -249,6 +249,14 @@ def _maskvals_case(rng):
                 premask=[rng.random() < 0.25 for _ in range(n)], steps=steps, coords=[])
 
 
+def _exprmask_case(rng):
+    """mask() on the file the expression front end pncexpr returns (a wrapper around its input): the new variable and the
+    input's variables are masked where the predicate holds (oracle only)"""
+    n = rng.randint(3, 6)
+    return dict(kind='exprmask', n=n, a=[rng.randint(0, 9) for _ in range(n)], premask=[rng.random() < 0.25 for _ in range(n)],
+                factor=rng.choice([2, 3, -1]), greater=rng.randint(2, 12), coords=[])
+
+
 def _masktr_case(rng):
     """mask(where=condition over (y, x)) on a square grid that also holds a field laid out (x, y): the condition belongs to the
     variables of its dimension tuple, in that order (oracle only)"""
@@ -261,7 +269,7 @@ def gen(rng, tier):
     n = 300 if tier == 'quick' else 10000
     return [_masktr_case(rng) for _ in range(max(3, n // 60))] + [_case(rng) for _ in range(n)] + [_chain_case(rng) for _ in range(n // 6)] + [_twice_case(rng) for _ in range(n // 15)] + \
         [_extreme_case(rng) for _ in range(n // 10)] + [_maskvals_case(rng) for _ in range(n // 10)] + \
-        [_reflect_case(rng) for _ in range(max(4, n // 30))]
+        [_reflect_case(rng) for _ in range(max(4, n // 30))] + [_exprmask_case(rng) for _ in range(max(3, n // 60))]
 
 
 def _py(e):
@@ -382,6 +390,20 @@ def impl(case):
                     r = o.variables[k][...]
                     out[k] = dict(mask=np.ma.getmaskarray(r).ravel().tolist(), data=np.ma.getdata(r).astype('d').ravel().tolist())
                 return dict(vars=out)
+            if case['kind'] == 'exprmask':
+                import PseudoNetCDF as pnc
+                from PseudoNetCDF.core._functions import pncexpr
+                f = pnc.PseudoNetCDFFile()
+                f.createDimension('x', case['n'])
+                va = f.createVariable('A', 'd', ('x',), fill_value=-999.)
+                va[:] = np.ma.masked_array(np.array(case['a'], dtype='d'), mask=case['premask'])
+                g = pncexpr('C = A * %d' % case['factor'], f)
+                h = g.mask(greater=case['greater'])
+                out = {}
+                for k in ('A', 'C'):
+                    r = h.variables[k][...]
+                    out[k] = dict(mask=np.ma.getmaskarray(r).tolist(), data=np.ma.getdata(r).astype('d').tolist())
+                return dict(vars=out)
             if case['kind'] == 'maskvals':
                 import PseudoNetCDF as pnc
                 from PseudoNetCDF.core._functions import mask_vals
@@ -459,7 +481,7 @@ def impl(case):
 
 def to_line(case, res):
     co = '.'.join(case['coords']) or '-'
-    if case['kind'] in ('extreme', 'maskvals', 'reflect', 'masktr'):
+    if case['kind'] in ('extreme', 'maskvals', 'reflect', 'masktr', 'exprmask'):
         return 'c06 nop'            # no model question: float32 range / the legacy helper, judged by the oracle
     if case['kind'] == 'twice':
         return 'c06 twice %s %s %s' % (case['how'], case['var'], ' '.join(pfile.encode(case['spec'])))
@@ -495,7 +517,7 @@ def _strip_flags(text):
 
 
 def agree(case, out, res):
-    if case['kind'] in ('extreme', 'maskvals', 'reflect', 'masktr'):
+    if case['kind'] in ('extreme', 'maskvals', 'reflect', 'masktr', 'exprmask'):
         return None
     if 'err' in res:
         return None if out.startswith('err') else 'impl raised %s (%s), model %s' % (res['err'], res.get('msg'), out[:80])
@@ -595,6 +617,18 @@ def oracle(case, res):
                 return 'mask(where over (y, x)%s): variable %s%s is missing at %s, the condition and predicates give %s' % (
                     ', greater=%s' % case['greater'] if case['greater'] is not None else '', k, '(x, y)' if k == 'AT' else '(y, x)',
                     res['vars'][k]['mask'], want.tolist())
+        return None
+    if case['kind'] == 'exprmask':
+        if 'err' in res:
+            return 'mask() on the file pncexpr returned raised %s %s' % (res['err'], res.get('msg'))
+        A = np.ma.masked_array(np.array(case['a'], dtype='d'), mask=case['premask'])
+        for k, v in (('A', A), ('C', A * case['factor'])):
+            wm = (np.ma.getmaskarray(v) | (np.ma.getdata(v) > case['greater'])).tolist()
+            if res['vars'][k]['mask'] != wm:
+                return 'pncexpr then mask(greater=%d): variable %s is missing at %s, the predicate (and the cells missing before) give %s' % (
+                    case['greater'], k, res['vars'][k]['mask'], wm)
+            if any(not m and x != y for m, x, y in zip(wm, res['vars'][k]['data'], np.ma.getdata(v).tolist())):
+                return 'pncexpr then mask(greater=%d): unmasked values of %s changed' % (case['greater'], k)
         return None
     if case['kind'] == 'maskvals':
         A = np.ma.masked_array(np.array(case['a'], dtype='d'), mask=case['premask'])
